@@ -829,7 +829,13 @@ func checkC07(ck *Check) {
 			}
 		}
 	}
-	ck.entails("C07.R1", ck.P.siteKey(cs)+"/untaint-ok", cs, ctx.PC(cs), errNil, "PC(cloud step) ⇒ the untaint step returned err == nil")
+	// an untaint step without an error result cannot fail as a whole (failed nodes are not counted)
+	_, utTuple := ut.Type().(*types.Tuple)
+	if utTuple {
+		ck.entails("C07.R1", ck.P.siteKey(cs)+"/untaint-ok", cs, ctx.PC(cs), errNil, "PC(cloud step) ⇒ the untaint step returned err == nil")
+	} else {
+		ck.ok("C07.R1", ck.P.siteKey(cs)+"/untaint-ok", ck.P.instrPos(cs), funcID(fn), "PC(cloud step) ⇒ the untaint step returned err == nil", "the untaint step has no error result")
+	}
 	// the untaint step gets ScaleUp's options unchanged
 	for _, av := range ut.Common().Args {
 		if types.Identical(av.Type(), a.TScaleOpts) {
@@ -884,7 +890,11 @@ func checkC07(ck *Check) {
 				}
 			}
 		}
-		want := &Term{Kind: "binop", Name: "-", Args: []*Term{N, {Kind: "extract", Name: "0", Args: []*Term{utT}}}}
+		untaintedT := &Term{Kind: "extract", Name: "0", Args: []*Term{utT}}
+		if !utTuple {
+			untaintedT = utT
+		}
+		want := &Term{Kind: "binop", Name: "-", Args: []*Term{N, untaintedT}}
 		env := &linEnv{choices: map[string]int{}, root: ctx}
 		same := false
 		if rem != nil {
